@@ -105,6 +105,7 @@ SPEC = {
     'level': 'proof',
     'timeout': {'quick': 900, 'thorough': 1800},
     'case_timeout': 240,
+    'driver_jobs': 8,       # every protocol line is judged independently (the thorough tier's trace validation is the long pole)
     'driver_timeout': {'quick': 1800, 'thorough': 5400},   # trace validation of ~5000 snapshots in exact rationals
 
     'classify_crash': classify_crash,
